@@ -382,6 +382,11 @@ def compare(prop, spec, ops, impl, model):
         exact = [e for e in o.expect if not e.startswith("@")]
         special = [e for e in o.expect if e.startswith("@")]
         bad = None
+        # C02: the measured allocation of the real process against the property's budget is an oracle of its own
+        if o.line.startswith("allocpkt ") and ib and " budget=" in ib[0] and not ib[0].endswith("budget=ok"):
+            failures.append(dict(kind="oracle", idx=i, op=o.line, tag=o.tag,
+                                 detail="allocation of this datagram exceeds 16 MiB + 256 x length x (1 + widest template): %s" % ib[0].split(" budget=")[1]))
+            continue
         for e in special:
             bad = check_special(e, ib)
             if bad:
